@@ -48,9 +48,13 @@ def gen_case(rng, tier):
         # a site inside one branch of a cond on the first discrete value, followed by non-linear code
         cond_site = "flip_enum" if kind == "enum_only" else rng.choice(
             ["flip_enum", "flip_enum", "flip_mvd", "flip_reinforce", "normal_reparam", "normal_reinforce"])
-    return {"kind": kind, "sites": sites, "cond_site": cond_site, "cond": rng.random() < 0.4, "theta": [round(rng.uniform(-0.8, 0.8), 3), round(rng.uniform(-0.8, 0.8), 3)],
+    case = {"kind": kind, "sites": sites, "cond_site": cond_site, "cond": rng.random() < 0.4, "theta": [round(rng.uniform(-0.8, 0.8), 3), round(rng.uniform(-0.8, 0.8), 3)],
             "ret": rng.choice(["poly", "sin", "prod"]), "nodes": 8 if tier == "quick" else 14, "max_leaves": 1000 if tier == "quick" else 8000,
             "real_cfg": rng.choice(["seed", "jit", "mvmap"]), "key": rng.randint(0, 2**30)}
+    # code after the cond(s) that reads a parameter-dependent value computed before them (two thirds of the
+    # cases with a cond; derived from theta, so the random streams of older seeds are unchanged)
+    case["tail"] = bool((case["cond"] or cond_site) and int(round(abs(case["theta"][0]) * 1000)) % 3 != 0)
+    return case
 
 
 # ------------------------------------------------------------------ the program, generic in xp
@@ -120,6 +124,7 @@ def build(case):
     @expectation
     def prog(t0, t1):
         acc = t0 * 1.0
+        pre = jnp.cos(t1) + 0.5 * t0  # parameter-dependent value defined before every site and cond
         first_disc = None
         for name in sites:
             p = site_params(jnp, name, acc, t1)
@@ -139,6 +144,8 @@ def build(case):
         if use_cond and first_disc is not None:
             pred = first_disc if first_disc.dtype == jnp.bool_ else first_disc > 0
             r = jax.lax.cond(pred, lambda z: z * 1.5 + 0.2, lambda z: z - 0.4 * z * z, r)
+        if case.get("tail"):
+            r = r * pre + 0.05 * t1
         return r
 
     return prog
@@ -162,6 +169,9 @@ def finish(case, theta, acc, vals):
     r = ret_fn(np, case["ret"], acc, t0, None)
     if case["cond"] and first_disc is not None:
         r = r * 1.5 + 0.2 if _pred(first_disc) else r - 0.4 * r * r
+    if case.get("tail"):
+        t1 = np.float64(theta[1])
+        r = r * (np.cos(t1) + 0.5 * t0) + 0.05 * t1
     return float(r)
 
 
@@ -541,6 +551,10 @@ def shrink(case):
             c = copy.deepcopy(case)
             c["cond_site"] = "flip_enum"
             yield c
+    if case.get("tail"):
+        c = copy.deepcopy(case)
+        c["tail"] = False
+        yield c
     if case["ret"] != "poly":
         c = copy.deepcopy(case)
         c["ret"] = "poly"
